@@ -514,6 +514,16 @@ def run(ctx):
     rule_r6(ctx, F)
     with ctx.rule('C04-R7', 'set-like state'):
         rule_r7(ctx, F)
+    # "equal states never split": the flow map has ONE representation of "nothing in flight on this flow" - no
+    # entry. on_deliver / on_drop remove a flow they empty (and only then), siblings of one another
+    import c07
+    ctx.doc('C07-R3', 'ordered flows: push_back on send, front on read, order-preserving single removal; an emptied '
+                      'flow is removed from the map')
+    ctx.doc('C07-R2', 'per-variant effect kinds; on_deliver and on_drop agree on the non-duplicating and ordered arms')
+    with ctx.rule('C07-R3', 'network'):
+        c07.r3_fifo(ctx, F)
+    with ctx.rule('C07-R2', 'network'):
+        c07.r2_effect_kinds(ctx, F)
 
 
 SET_LIKE = [
